@@ -85,3 +85,63 @@ def bloc_assign_widens_block(rec, params):
         if e['dt'] != a['dt'] and any(row[j] for row in mask):
             return False
     return True
+
+
+def _canon_res(r):
+    if not isinstance(r, dict):
+        return r
+    c = lambda v: ['i', v[1]] if isinstance(v, list) and v and v[0] == 'f' and len(v) == 3 and v[2] == 1 else v
+    out = dict(r)
+    if 'cols' in out:
+        out['cols'] = [[c(v) for v in col['vals']] for col in out['cols']]
+    if 'vals' in out:
+        out['vals'] = [c(v) for v in out['vals']]
+        out.pop('dt', None)
+    if 'rows' in out:
+        out['rows'] = [[c(v) for v in row] for row in out['rows']]
+        out.pop('dt', None)
+    return out
+
+
+@classifier
+def c03_bloc_order(rec, params):
+    case = rec.get('case') or {}
+    if case.get('op') not in ('f_bloc', 'bloc_notna'):
+        return False
+    e, a = rec.get('expected') or {}, rec.get('actual') or {}
+    if e.get('k') != 'series' or a.get('k') != 'series':
+        return False
+    import json
+    pe = sorted(json.dumps([i, v]) for i, v in zip(e['index'], e['vals']))
+    pa = sorted(json.dumps([i, v]) for i, v in zip(a['index'], a['vals']))
+    return pe == pa and e['dt'] == a['dt'] and e['name'] == a['name']
+
+
+@classifier
+def c03_values_equal_dtype_differs(rec, params):
+    case = rec.get('case') or {}
+    if case.get('op') not in params.get('ops', []):
+        return False
+    if params.get('val') and ((case.get('cs') or {}).get('val') or [None])[0] != params['val']:
+        return False
+    e, a = rec.get('expected') or {}, rec.get('actual') or {}
+    return e != a and _canon_res(e) == _canon_res(a)
+
+
+@classifier
+def c03_object_reduction(rec, params):
+    case = rec.get('case') or {}
+    if case.get('op') not in params.get('ops', []):
+        return False
+    src = case.get('f') or {}
+    return any(c['dt'][0] in ('O', 'U', 'S') for c in src.get('cols', []))
+
+
+@classifier
+def c03_all_bool_reduction(rec, params):
+    case = rec.get('case') or {}
+    if case.get('op') not in params.get('ops', []):
+        return False
+    src = case.get('f') or {}
+    cols = src.get('cols', [])
+    return bool(cols) and all(c['dt'][0] == 'b' for c in cols)
